@@ -65,6 +65,7 @@ void colvarproxy_verif::set_natoms(int n)
   engine_charge.assign(n, 0.0);
   engine_pos.assign(n, cvm::rvector(0., 0., 0.));
   engine_tf.assign(n, cvm::rvector(0., 0., 0.));
+  last_applied.assign(n, cvm::rvector(0., 0., 0.));
 }
 
 void colvarproxy_verif::log(std::string const &message)
@@ -207,6 +208,7 @@ void colvarproxy_verif::push_engine_data()
     if (aid >= 0 && aid < n_natoms) {
       atoms_positions[i] = engine_pos[aid];
       atoms_total_forces[i] = engine_tf[aid];
+      if (tf_loop && !tf_same_step) atoms_total_forces[i] += last_applied[aid];
       atoms_masses[i] = engine_mass[aid];
       atoms_charges[i] = engine_charge[aid];
     }
@@ -241,5 +243,10 @@ int colvarproxy_verif::do_step(bool continuing)
   bias_energy = 0.0;
   push_engine_data();
   int rc = colvars->calc();
+  for (size_t a = 0; a < last_applied.size(); a++) last_applied[a].reset();
+  for (size_t i = 0; i < atoms_ids.size(); i++) {
+    int const aid = atoms_ids[i];
+    if (aid >= 0 && aid < n_natoms) last_applied[aid] += atoms_new_colvar_forces[i];
+  }
   return rc;
 }
